@@ -257,12 +257,16 @@ def main(argv=None):
         exit_code = 3
     elif undecided and exit_code == 0:
         exit_code = 2
+    bounded_only = getattr(mod, 'BOUNDED_ONLY', None)
     if n_obl == 0 and exit_code == 0:
-        errors.append('zero obligations generated')
-        exit_code = 3
+        if bounded_only and sum(r.get('evaluations', 0) for r in bresults) > 0:
+            pass    # a property decided by labelled bounded stand-ins only: level 'exploration', nothing counted as proved
+        else:
+            errors.append('zero obligations generated')
+            exit_code = 3
     wall = time.time() - t0
     evidence = {
-        'property_id': prop, 'tier': a.tier, 'seed': seed, 'level': 'proof',
+        'property_id': prop, 'tier': a.tier, 'seed': seed, 'level': 'proof' if n_obl else 'exploration',
         'coverage': {
             'obligations': n_obl, 'discharged': n_dis,
             'checker_cmd': f'./check {prop} --tier {a.tier}',
@@ -278,6 +282,7 @@ def main(argv=None):
             'bounded': bound_block,
             'bounded_note': 'bounded stand-ins are reported here and never counted in obligations/discharged',
             'not_decided': list(getattr(mod, 'NOT_DECIDED', [])),
+            'bounded_only_reason': bounded_only if not n_obl else None,
             'errors': errors, 'undecided': undecided,
         },
         'assumptions': sorted(assumptions),
